@@ -3,8 +3,11 @@ import PnVerif.Model.HeaderText
 /-
   C19 correspondence driver.  One request per line on stdin, one answer per line on stdout.
 
+    VARIANT int63 <0|1>  1: the tree carries the repair of B10-3/B10-5/B10-6 (64-bit header fields with the sign
+                       bit set and begin + len > 2^63-1 refused with NC_ENOTNC: Safety.getBodyS / postPassS);
+                       answers VARIANT int63 <0|1>.  Default 0 = the code as it stands.
     OPEN <hexfile>     what ncmpi_open + the inquiry functions report for these bytes according to
-                       the model (Safety.openGuarded, limit 64 KiB beyond the end of the file):
+                       the model (Safety.openGuardedS, limit 64 KiB beyond the end of the file):
         ERR <NC code> F <bytes requested by hdr_fetch | ->
         OK <fmt> <numrecs|-> <ndims> <nvars> <ngatts> <unlimdim> D <len>... V <ndims> <type> <begin> <natts> <dimid>... ; ... F <bytes requested by hdr_fetch>
         BIG <copy|count> <stream position the offending read would reach>
@@ -26,12 +29,12 @@ def unlimOf (ds : List Dim) : Option Nat := ds.findIdx? (fun d => d.size == 0)
 
 def wd (w : Bool) : String := if w then " WIDE" else ""
 
-def showOpen (file : Bytes) : String :=
-  match openGuarded 65536 file with
+def showOpen (strict : Bool) (file : Bytes) : String :=
+  match openGuardedS strict 65536 file with
   | .big b m w => s!"BIG {if b then "copy" else "count"} {m}{wd w}"
   | .err e w =>
     let f := match e with
-      | .hdr _ => toString (bytesFetched 262144 file)
+      | .hdr _ => toString (bytesFetchedS strict 262144 file)
       | _ => "-"
     s!"ERR {e.code} F {f}{wd w}"
   | .ok h _ w =>
@@ -40,7 +43,7 @@ def showOpen (file : Bytes) : String :=
     let ui : Int := match u with | some i => i | none => -1
     let ds := String.intercalate " " ("D" :: h.dims.map (fun d => toString (asSigned d.size)))
     let vs := String.intercalate " " ("V" :: h.vars.map showVar19)
-    s!"OK {h.fmt.version} {nr} {h.dims.length} {h.vars.length} {h.gatts.length} {ui} {ds} {vs} F {bytesFetched 262144 file}{wd w}"
+    s!"OK {h.fmt.version} {nr} {h.dims.length} {h.vars.length} {h.gatts.length} {ui} {ds} {vs} F {bytesFetchedS strict 262144 file}{wd w}"
 
 def showTrace (chunk : Nat) (file : Bytes) : String :=
   let t := decodeTrace chunk file
@@ -48,11 +51,11 @@ def showTrace (chunk : Nat) (file : Bytes) : String :=
   let nf := (t.filter (fun a => a.kind == .readDst)).length
   s!"{t.length} {bad} {decodeStuck chunk file} {nf} {bytesFetched chunk file}"
 
-def step (line : String) : String :=
+def step (strict : Bool) (line : String) : String :=
   match tokens line.trimAscii.toString with
   | ["OPEN", hex] =>
     match ofHex hex with
-    | some f => showOpen f
+    | some f => showOpen strict f
     | none => "bad-hex"
   | ["TRACE", c, hex] =>
     match c.toNat?, ofHex hex with
@@ -60,12 +63,17 @@ def step (line : String) : String :=
     | _, _ => "bad-args"
   | _ => "bad-op"
 
-partial def loop (h : IO.FS.Stream) (out : IO.FS.Stream) : IO Unit := do
+partial def loop (h : IO.FS.Stream) (out : IO.FS.Stream) (strict : Bool) : IO Unit := do
   let line ← h.getLine
   if line.isEmpty then return ()
-  out.putStrLn (step line)
-  loop h out
+  match tokens line.trimAscii.toString with
+  | ["VARIANT", "int63", v] =>
+    out.putStrLn s!"VARIANT int63 {v}"
+    loop h out (v == "1")
+  | _ =>
+    out.putStrLn (step strict line)
+    loop h out strict
 
 def main : IO Unit := do
   let out ← IO.getStdout
-  loop (← IO.getStdin) out
+  loop (← IO.getStdin) out false
